@@ -77,8 +77,6 @@ Fixpoint wf_body (b : body) : bool :=
 Definition SPEC_PLAIN : list bytes := [K_HEADER; K_TEXT].
 Definition SPEC_FIELDS : list bytes := Eval vm_compute in
   [K_HEADER_FIELDS; K_HEADER_FIELDS ++ K_DOTNOT].
-Definition is_astring_spelling (h : bytes) : bool :=
-  match astring h with Some [] => true | _ => false end.
 (* BODY[...] *)
 Definition wf_section (s : fsection) : bool :=
   forallb pos (fs_parts s) &&
@@ -89,7 +87,7 @@ Definition wf_section (s : fsection) : bool :=
     else if bytes_eqb sp K_MIME then
       nonempty (fs_parts s) && match fs_headers s with [] => true | _ => false end
     else if existsb (bytes_eqb sp) SPEC_FIELDS then
-      nonempty (fs_headers s) && forallb is_astring_spelling (fs_headers s)
+      nonempty (fs_headers s)
     else false
   end.
 (* BINARY[...] *)
